@@ -130,6 +130,7 @@ def run(chk):
     hunt3_rules(chk, repo, hp)
     hunt4_rules(chk, repo)
     regex_cost_rule(chk, repo, folder)
+    hunt5_rules(chk, repo)
 
 
 _RE_FUNCS = ("re.compile", "re.match", "re.fullmatch", "re.search", "re.sub", "re.subn", "re.split", "re.findall", "re.finditer")
@@ -175,7 +176,10 @@ def regex_cost_rule(chk, repo, folder, rule="C10.regex.linear"):
             except Exception as e:  # a pattern the stdlib parser refuses is someone else's finding
                 unfolded += 1
                 continue
-            if hz:
+            if hz and "nested" not in hz:
+                chk.violation(rule, c, K.short(c, 100), "no unbounded repetition of the same characters right behind a lazy group: cut the run off first, or make the group greedy up to the separator",
+                              f"in the pattern {pat!r:.120} a lazy repetition is followed by an unbounded repetition of characters it can match itself, and by something that can fail: the lazy group tries the rest after every character, and the rest scans the whole run before it fails - quadratic in the length of one header value (`Forwarded: for=a` + 8000 blanks + `b`: 0.3 s; 125 such fields, all within the default limits: half a minute of blocked event loop for one request)")
+            elif hz:
                 chk.violation(rule, c, K.short(c, 100), "an inner repetition that cannot be re-split by the outer one: (?:[plain]|%XX)+ instead of (?:[plain]+|%XX)+",
                               f"the pattern {pat!r:.120} repeats a group that can itself match a run of characters in one or in several rounds: a mismatch after n such characters costs 2**n steps - one short request line or header value (40 ordinary characters and a character the pattern refuses) keeps the event loop busy for hours")
             else:
@@ -184,6 +188,75 @@ def regex_cost_rule(chk, repo, folder, rule="C10.regex.linear"):
     chk.note = getattr(chk, "note", "")
     if unfolded:
         chk.ok(rule, repo.module(MOD).tree, f"{unfolded} pattern expression(s) are built at run time (re.escape of a boundary, a template) and are not examined")
+
+
+def hunt5_rules(chk, repo):
+    """Rules written after the fifth defect hunt (F324, F325): the header-value parsers of the package behind the message parsers."""
+    # ---- C10.scan.progress: a scanning loop moves forward -----------------------------------------------------------------------------------------------------
+    # `pos = s.find(sep, pos) + 1` restarts the scan at 0 when the separator is not found (-1 + 1): the loop never ends, and it never yields -
+    # `Forwarded: x` stops the whole server.  A position computed from find() is used only where `not found` has been dealt with.
+    n = 0
+    for rel in repo.rels():
+        mod = repo.module(rel)
+        for fn in mod.functions.values():
+            for lp in [l for l in ast.walk(fn.node) if isinstance(l, ast.While)]:
+                for a in ast.walk(lp):
+                    if not isinstance(a, (ast.Assign, ast.AugAssign)) or getattr(a, "fn", None) is not fn:
+                        continue
+                    tgt = a.targets[0] if isinstance(a, ast.Assign) else a.target
+                    if not isinstance(tgt, ast.Name) or tgt.id not in {x.id for x in ast.walk(lp.test) if isinstance(x, ast.Name)}:
+                        continue
+                    finds = [c for c in ast.walk(a.value) if isinstance(c, ast.Call) and isinstance(c.func, ast.Attribute) and c.func.attr in ("find", "rfind")]
+                    names = [x for x in ast.walk(a.value) if isinstance(x, ast.Name)]
+                    viaf = [x for x in names if any(v is not None and isinstance(v, ast.Call) and isinstance(v.func, ast.Attribute) and v.func.attr in ("find", "rfind") for _d, v in norm.fn_defs(fn.node).defs.get(x.id, []))]
+                    if not finds and not viaf:
+                        continue
+                    n += 1
+                    if finds and isinstance(a.value, ast.BoolOp) and isinstance(a.value.op, ast.Or) and isinstance(a.value.values[0], ast.BinOp):
+                        chk.ok("C10.scan.progress", a, f"{fn.qualname}: `find() + 1 or <end>`: `not found` (0) falls through to the end of the input")
+                        continue
+                    if finds and isinstance(a.value, (ast.BinOp,)):
+                        chk.violation("C10.scan.progress", a, K.short(a), "end = s.find(sep, pos); if end < 0: end = len(s); ...; pos = end + 1",
+                                      f"{fn.qualname}: the loop position is find() + k with no test of `not found`: -1 + 1 restarts the scan at 0 and the loop never ends nor yields - one request with `Forwarded: x` (or `for=a;b`, `for=\"a\";q`) hangs BaseRequest.forwarded and with it the whole server: no other connection is answered")
+                        continue
+                    def dealt(x):
+                        # an `if` / conditional expression of the loop asks whether the result is negative, or the assignment itself is under
+                        # a comparison of the result with a valid position (`pos == start_pos`, `pos >= start_pos`)
+                        if any(isinstance(i, (ast.If, ast.IfExp)) and x.id in norm.raw(i.test) and any(t in norm.raw(i.test) for t in ("< 0", ">= 0", "== -1", "!= -1", "> -1")) for i in ast.walk(lp)):
+                            return True
+                        for l in PC.units(PC.pc(a, raw=True)):
+                            try:
+                                e = ast.parse(l.text, mode="eval").body
+                            except SyntaxError:
+                                continue
+                            if l.pos and isinstance(e, ast.Compare) and isinstance(e.left, ast.Name) and e.left.id == x.id and isinstance(e.ops[0], (ast.Eq, ast.GtE, ast.Gt)):
+                                return True
+                        # ... or a disjunct of an enclosing test does (the other disjunct being another way of saying `found`)
+                        for i in prog.enclosing(a, (ast.If,)):
+                            if any(isinstance(e, ast.Compare) and isinstance(e.left, ast.Name) and e.left.id == x.id and isinstance(e.ops[0], (ast.Eq, ast.GtE, ast.Gt)) for e in ast.walk(i.test)):
+                                return True
+                        return False
+                    handled = all(dealt(x) for x in viaf)
+                    if handled:
+                        chk.ok("C10.scan.progress", a, f"{fn.qualname}: the position comes from a find() result whose `not found` (-1) is handled in the loop")
+                    else:
+                        chk.violation("C10.scan.progress", a, K.short(a), "if end < 0: end = len(s)", f"{fn.qualname}: the loop position is computed from a find() result that may be -1: the scan can move backwards and never end")
+    chk.expect_count("C10.scan.progress", n, 1, "loop positions computed from str.find()")
+    # ---- C10.total.header: header values are not handed to the parser of the email package ---------------------------------------------------------------------
+    bad = []
+    for rel in repo.rels():
+        mod = repo.module(rel)
+        for x in ast.walk(mod.tree):
+            if isinstance(x, ast.ImportFrom) and x.module and x.module.startswith("email.") and x.module.split(".")[1] in ("parser", "message", "feedparser", "policy", "headerregistry", "_header_value_parser"):
+                bad.append((mod, x))
+            elif isinstance(x, ast.Call) and norm.raw(x.func) in ("email.message_from_string", "email.message_from_bytes"):
+                bad.append((mod, x))
+    if bad:
+        for mod, x in bad:
+            chk.violation("C10.total.header", x, K.short(x), "a linear splitter of the package (parse_mimetype / parse_header_parameters)",
+                          f"{mod.rel} parses a header value of the peer with the email package: its header parser raises IndexError (`Content-Type: text/plain; charset*`) and RecursionError (600 `(`) - neither an HTTP error nor a ClientError: request.text() / .json() / .post() answer 500, resp.json() raises the bare exception - and it is quadratic in the number of `;` (an 8 kB Content-Type costs 0.5 s of blocked event loop, the 126 joined fields the client's lax parser admits cost hours)")
+    else:
+        chk.ok("C10.total.header", repo.module("aiohttp/helpers.py").tree, "no module of the package hands a header value to the email package's parser (parse_content_type() uses the linear parameter splitter)")
 
 
 def hunt3_rules(chk, repo, hp):
